@@ -475,7 +475,10 @@ class from_kafka(Source):
             # establish connection with broker to fetch oauth token for kafka
             self.consumer.poll(timeout=1)
             self.consumer.get_watermark_offsets(tp)
-            self.loop.add_callback(self.poll_kafka)
+            self.loop.add_callback(self._run_exclusive)
+
+    def run(self):
+        return self.poll_kafka()
 
     def _close_consumer(self):
         if self.consumer is not None:
